@@ -4,7 +4,9 @@ import CoapVerif.Generated.ServerTables
 M — transcription, in code order, of the request path of coap_dispatch() and of handle_request(), no_response(),
 coap_new_error_response(), check_token_size(), coap_option_check_critical(), coap_get_uri_path(), coap_get_query()
 and of the 5.08 fix-up in coap_send_internal() (src/coap_net.c, src/coap_uri.c), for one datagram arriving at a UDP
-endpoint of a fresh context (no OSCORE context, no async state, block mode 0, Q-Block not enabled, no Echo pending).
+endpoint of a fresh context (no OSCORE context, no async state, block mode 0, Q-Block not enabled, no Echo pending);
+the last section (`serverDecisionA`, `serverSeq`) covers a datagram that finds deferred responses (coap_async.c) and
+`last_con_mid` left by earlier datagrams of the same or of other peers.
 Finite tables come from T1 (Generated/ServerTables.lean).  External calls are parameters: the application handler
 (`Request.verdict`), coap_split_proxy_uri (`Request.pu`), the text of the local address used by 5.08 (`localAddrText`),
 the listing of /.well-known/core (`Body.wellknown`, C20).
@@ -32,6 +34,22 @@ def Filter.unset (f : Filter) (n : Nat) : Filter :=
 
 /-- ctx->known_options after coap_register_option() for every number of cfg.known -/
 def knownFilter (cfg : Cfg) : Filter := cfg.known.foldl (fun f n => (f.set n).1) Filter.empty
+
+/-! ### handler tables: constructor presets + the application's coap_register_request_handler() calls -/
+def mbit (m i : Nat) : Bool := m / 2 ^ i % 2 == 1
+
+/-- r->handler[] (as a bit mask) of a resource whose constructor registered `actual` by itself, after an application
+that wants handlers exactly for `mask` and knows the constructor to register `doc` (coap_resource(3)) has made its
+calls: it registers what `doc` lacks, unregisters what it does not want and leaves the rest to the constructor -/
+def effMask (doc actual mask : Nat) : Nat :=
+  (List.range 7).foldl (fun acc i =>
+    acc + (if (if mbit mask i then (!mbit doc i || mbit actual i) else (!mbit doc i && mbit actual i)) then 2 ^ i else 0)) 0
+
+/-- the handler tables of the real resources: what the constructors preset (T1) and the application's registrations -/
+def implTable (t : Table) : Table :=
+  ⟨t.unk.map fun u => { u with mask := effMask S.docPresetUnk presetUnk u.mask },
+   t.prx.map fun p => { p with mask := effMask S.docPresetPrx presetPrx p.mask },
+   t.res.map fun r => { r with mask := effMask S.docPresetRes presetRes r.mask }⟩
 
 /-! ### coap_option_check_critical -/
 structure Crit where
@@ -344,5 +362,60 @@ def serverDecision (cfg : Cfg) (tbl : Table) (rq : Request) : Outcome :=
     if cfg.mts > 8 then ⟨true, [errReply m (clearBlock2M m.opts) 128 Filter.empty], none⟩
     else ⟨true, if rq.mcast ∧ m.type = NON then [] else [emptyMsg RST m.mid], none⟩
   else handleRequest cfg tbl rq c.critOpt (clearBlock2M m.opts)
+
+/-! ### a request that finds state left by earlier datagrams at the same context
+`hit`: `coap_find_async_lkd(session, pdu->actual_token)` finds a registration (a handler deferred the response to an
+earlier request of this session with this token by coap_register_async(…, delay 0): `async->delay == 0`);
+`dup`: `pdu->mid == session->last_con_mid`.  With `hit = dup = false` these are the functions above
+(`serverDecisionA_fresh` in Lemmas/ServerSeq.lean). -/
+
+def runStageA (dup : Bool) (cfg : Cfg) (rq : Request) (os : Opts) (path : Bytes) (sel : Sel) : Outcome :=
+  -- `if (send_early_empty_ack) { coap_send_ack_lkd(session, pdu); if (pdu->mid == session->last_con_mid) goto drop_it_no_debug;`
+  -- (the Observe block in front of it does nothing for the proxy resource: it is never observable)
+  if sel.isPrx ∧ rq.msg.type = CON ∧ dup then ⟨true, [emptyMsg ACK rq.msg.mid], none⟩
+  else runStage cfg rq os path sel
+
+def handleRequestA (hit dup : Bool) (cfg : Cfg) (tbl : Table) (rq : Request) (critOpt : Bool) (os : Opts) : Outcome :=
+  if rq.mcast ∧ rq.msg.type ≠ NON then Outcome.nothing else
+  -- `async = coap_find_async_lkd(session, pdu->actual_token); if (async) { … "Retransmit async response"
+  --  coap_send_ack_lkd(session, pdu) /* only if CON */; return; }`
+  if hit then ⟨true, if rq.msg.type = CON then [emptyMsg ACK rq.msg.mid] else [], none⟩ else
+  match preStage tbl rq critOpt os with
+  | .fail resp res => failResponse cfg rq os resp res
+  | .ignore => Outcome.nothing
+  | .go isProxy os' path =>
+    match selectStage tbl rq.msg.code isProxy path with
+    | .inl resp => failResponse cfg rq os' resp none
+    | .inr sel =>
+      match checkStage cfg rq os' sel with
+      | some resp => failResponse cfg rq os' resp (some sel.flags)
+      | none => runStageA dup cfg rq os' path sel
+
+def serverDecisionA (hit dup : Bool) (cfg : Cfg) (tbl : Table) (rq : Request) : Outcome :=
+  let m := rq.msg
+  if ¬ inIvs codeOk m.code then
+    ⟨true, if m.type = CON then [emptyMsg RST m.mid] else [], none⟩
+  else if ¬ isRequestCode m.code then Outcome.outOfScope
+  else if rq.verdict.code = 168 then Outcome.outOfScope
+  else
+  let proxyFwd := tbl.prx.isSome ∧ (hasOpt m.opts 35 ∨ hasOpt m.opts 39)
+  let c := critCheck (knownFilter cfg) proxyFwd m.opts
+  if ¬ c.ok then
+    if m.type = NON then
+      ⟨true, if rq.mcast then [] else [emptyMsg RST m.mid], none⟩
+    else if m.type = CON then ⟨true, [errReply m (clearBlock2M m.opts) 130 c.unknown], none⟩
+    else Outcome.nothing
+  else if hasOpt m.opts 9 then Outcome.outOfScope
+  else if m.type = ACK then Outcome.nothing
+  else if m.type = RST then Outcome.nothing
+  else
+  if m.token.length > cfg.mts then
+    if cfg.mts > 8 then ⟨true, [errReply m (clearBlock2M m.opts) 128 Filter.empty], none⟩
+    else ⟨true, if rq.mcast ∧ m.type = NON then [] else [emptyMsg RST m.mid], none⟩
+  else handleRequestA hit dup cfg tbl rq c.critOpt (clearBlock2M m.opts)
+
+/-- the server's outcomes for a sequence of datagrams, starting from history `h` (see `Hist`, `Ev`, `seqRun`) -/
+def serverSeq (cfg : Cfg) (tbl : Table) : Hist → List Ev → List Outcome :=
+  seqRun (fun hit dup rq => serverDecisionA hit dup cfg tbl rq)
 
 end Coap.Server.M
